@@ -8,6 +8,7 @@ import (
 	"net/http"
 	"os"
 	"path/filepath"
+	"strings"
 
 	dshelp "github.com/ipfs/boxo/datastore/dshelp"
 	pb "github.com/ipfs/boxo/filestore/pb"
@@ -327,6 +328,11 @@ func (f *FileManager) putTo(ctx context.Context, b *posinfo.FilestoreNode, to pu
 		p, err := filepath.Rel(f.root, b.PosInfo.FullPath)
 		if err != nil {
 			return err
+		}
+		// HasPrefix above is a plain string comparison: a sibling such as
+		// <root>-other/file shares the prefix but lies outside the root.
+		if p == ".." || strings.HasPrefix(p, ".."+string(filepath.Separator)) {
+			return fmt.Errorf("cannot add filestore references outside ipfs root (%s)", f.root)
 		}
 
 		ps := filepath.ToSlash(p)
